@@ -1,6 +1,6 @@
 #!/bin/sh
 # tools/confirm_seed2.sh <Cxx> <c|d>: confirm a round-2 seeded change in its scratch worktree
-P=$1; X=$2; WT=/tmp/wt/$P; S=/tmp/seedout2/$P/$X
+P=$1; X=$2; WT=/tmp/wt/$P; S=${BASE:-/tmp/seedout2}/$P/$X
 cd $WT || exit 9
 git checkout -q -- . ; git clean -fdq
 PYTHONPATH=$WT timeout 300 /venv/bin/python $S/demo.py >/dev/null 2>&1; clean=$?
